@@ -121,7 +121,7 @@ func acctState(w *World, h *HistRun) (string, any) {
 			if sj.Op.K == "recharge" && sj.Op.RG == rg {
 				g += sj.Op.Amt
 			}
-			if sj.Op.K == "update" || sj.Op.K == "release" {
+			if sj.Op.K == "update" || sj.Op.K == "release" || sj.Op.K == "create" {
 				uj, _ := onlineUsed(sj.Op, rg)
 				g -= u * uj
 			}
@@ -167,10 +167,15 @@ func c01Step(w *World, h *HistRun, i int) (fs []Finding) {
 		if st.Op.K == "recharge" && st.Supi == supi && st.Op.RG == rg {
 			credited = st.Op.Amt
 		}
-		if (st.Op.K == "update" || st.Op.K == "release") && st.Supi == supi {
+		if (st.Op.K == "update" || st.Op.K == "release" || st.Op.K == "create") && st.Supi == supi {
 			used, _ = onlineUsed(st.Op, rg)
 		}
 		want := b0 + r0 + credited - u*used
+		if b1+r1 != want && st.Op.K == "create" && used > 0 && b1+r1 == b0+r0 {
+			// positively recognised known defect: online usage reported in a create request is never rated
+			fs = append(fs, Finding{"credit-not-conserved/usage-reported-in-create", fmt.Sprintf("step %d %s: %d units of online usage of rating group %d reported in the create (unit cost %d) left balance %d and reservation %d of account %s untouched", i, st.Op, used, rg, u, b1, r1, k)})
+			continue
+		}
 		if b1+r1 != want {
 			fs = append(fs, Finding{"credit-not-conserved", fmt.Sprintf("step %d %s: account %s balance %d->%d reservation %d->%d, unit cost %d, online usage %d, credited %d: balance+reservation is %d, expected %d (difference %+d)",
 				i, st.Op, k, b0, b1, r0, r1, u, used, credited, b1+r1, want, b1+r1-want)})
@@ -183,6 +188,27 @@ func c01Step(w *World, h *HistRun, i int) (fs []Finding) {
 		}
 	}
 	return
+}
+
+// rgTwice: the request names rating group rg in more than one unit-usage entry that asks for units
+func rgTwice(op Op, rg int32) bool {
+	n := 0
+	for _, m := range op.MUs {
+		if m.RG == rg && m.Req >= 0 {
+			n++
+		}
+	}
+	return n > 1
+}
+
+func rgTwiceBefore(h *HistRun, i int, k string) bool {
+	supi, rg := splitKey(k)
+	for j := 0; j <= i && j < len(h.Steps); j++ {
+		if sj := h.Steps[j]; sj.Supi == supi && sj.Resp.Code/100 == 2 && rgTwice(sj.Op, rg) {
+			return true
+		}
+	}
+	return false
 }
 
 // sessionsShareReservation: before step i, two different sessions of the account's subscriber held a grant > 0 on the
@@ -226,7 +252,11 @@ func c06Step(w *World, h *HistRun, i int) (fs []Finding) {
 		if b1, ok := balOf(st.Post, k); ok && b1 < 0 {
 			b0, _ := balOf(st.Pre, k)
 			rule := "negative-balance"
-			if sessionsShareReservation(h, i, k) {
+			if rgTwiceBefore(h, i, k) {
+				// positively recognised known defect: one request naming a rating group in two unit-usage entries is granted
+				// once per entry against the same money
+				rule = "negative-balance/rating-group-twice-in-one-request"
+			} else if sessionsShareReservation(h, i, k) {
 				// positively recognised known defect (see known_findings.json): the reservation is kept per subscriber and
 				// rating group, so two sessions of one subscriber are granted against the same money
 				rule = "negative-balance/sessions-share-reservation"
@@ -237,9 +267,18 @@ func c06Step(w *World, h *HistRun, i int) (fs []Finding) {
 	if st.Op.K != "update" || st.Resp.Code != 200 {
 		return
 	}
-	for _, m := range st.Op.MUs {
-		if m.Req < 0 {
+	doneRG := map[int32]bool{}
+	for _, m0 := range st.Op.MUs {
+		if m0.Req < 0 || doneRG[m0.RG] {
 			continue
+		}
+		doneRG[m0.RG] = true
+		// what the request asks for and is granted on this rating group, over all its unit-usage entries
+		m := MU{RG: m0.RG}
+		for _, mm := range st.Op.MUs {
+			if mm.RG == m0.RG && mm.Req >= 0 {
+				m.Req += mm.Req
+			}
 		}
 		if _, online := onlineUsed(st.Op, m.RG); !online {
 			continue
@@ -282,17 +321,21 @@ func c06Step(w *World, h *HistRun, i int) (fs []Finding) {
 		rem := avail - b0
 		buys := avail / u
 		var ui *UnitInfo
+		var granted int64
 		for j := range st.Units {
 			if st.Units[j].RG == m.RG {
 				ui = &st.Units[j]
+				if ui.Granted > 0 {
+					granted += int64(ui.Granted)
+				}
 			}
 		}
 		if ui == nil {
 			continue
 		}
-		granted := int64(ui.Granted)
-		if granted < 0 {
-			granted = 0
+		suffix := ""
+		if rgTwice(st.Op, m.RG) {
+			suffix = "/rating-group-twice-in-one-request"
 		}
 		if buys < int64(m.Req) {
 			mode := "reserve"
@@ -300,11 +343,11 @@ func c06Step(w *World, h *HistRun, i int) (fs []Finding) {
 				mode = "debit"
 			}
 			if granted > buys {
-				fs = append(fs, Finding{"over-grant", fmt.Sprintf("step %d %s: account %s balance %d, unconsumed reservation %d, unit cost %d: money buys %d units, requested %d, granted %d (fui=%q, mode=%s)",
+				fs = append(fs, Finding{"over-grant" + suffix, fmt.Sprintf("step %d %s: account %s balance %d, unconsumed reservation %d, unit cost %d: money buys %d units, requested %d, granted %d (fui=%q, mode=%s)",
 					i, st.Op, k, b0, rem, u, buys, m.Req, granted, ui.FUI, mode)})
 			}
 			if ui.FUI != "TERMINATE" {
-				fs = append(fs, Finding{"no-final-unit-indication/" + mode, fmt.Sprintf("step %d %s: account %s money buys %d < requested %d, granted %d, but finalUnitAction=%q (mode=%s)",
+				fs = append(fs, Finding{"no-final-unit-indication/" + mode + suffix, fmt.Sprintf("step %d %s: account %s money buys %d < requested %d, granted %d, but finalUnitAction=%q (mode=%s)",
 					i, st.Op, k, buys, m.Req, granted, ui.FUI, mode)})
 			}
 		}
@@ -340,7 +383,11 @@ type acctScenario struct {
 }
 
 func mkCreate(u int, cons string) Op {
-	return Op{K: "create", U: u, Cons: cons, Notify: "http://smf-a.example/notify", Seq: 1, CID: int32(10 + u), PDU: true}
+	op := Op{K: "create", U: u, Cons: cons, Notify: "http://smf-a.example/notify", Seq: 1, CID: int32(10 + u), PDU: true}
+	if cons == "smf2" {
+		op.MNC = "410" // every second consumer sits in a network with a three-digit mobile network code
+	}
+	return op
 }
 
 // acctAlphabet builds the successor operations of a state.
@@ -365,6 +412,19 @@ func (sc acctScenario) alphabet(disciplined bool) func(info json.RawMessage, dep
 		for u := 0; u < nUE; u++ {
 			if live[u] < maxSess {
 				ops = append(ops, mkCreate(u, "smf"+strconv.Itoa(live[u]+1)))
+				if !disciplined && sc.twoSess {
+					// a create that already reports online usage (20 units of rating group 1)
+					c := mkCreate(u, "smf"+strconv.Itoa(live[u]+1))
+					c.MUs = []MU{{RG: 1, Req: 50, Conts: []Cont{{Vol: 20, Up: 8, Down: 12, Seq: int32(100*(depth+1) + 70)}}}}
+					ops = append(ops, c)
+				}
+			}
+			if !disciplined && sc.extras && depth <= 1 {
+				// a one-time event (immediate event charging) reporting 20 units used online
+				ev := mkCreate(u, "smf-ev")
+				ev.OTE = "IEC"
+				ev.MUs = []MU{{RG: 1, Req: -1, Conts: []Cont{{Vol: 20, Up: 8, Down: 12, Seq: int32(100*(depth+1) + 71)}}}}
+				ops = append(ops, ev)
 			}
 		}
 		seq := int32(100 * (depth + 1))
@@ -398,6 +458,12 @@ func (sc acctScenario) alphabet(disciplined bool) func(info json.RawMessage, dep
 					}
 					for _, req := range sc.reqs {
 						ops = append(ops, Op{K: "update", S: si, MUs: mkMUs(req), Seq: seq})
+					}
+					if us == "all" && sc.split && len(rgs) == 1 {
+						// the rating group named by two unit-usage entries of one request (two UPFs), each asking for units
+						mus := mkMUs(sc.reqs[0])
+						second := MU{RG: mus[0].RG, Req: sc.reqs[0], Conts: []Cont{{Vol: 0, Seq: seq + 65}}}
+						ops = append(ops, Op{K: "update", S: si, MUs: append(mus, second), Seq: seq})
 					}
 					if (us == "all" || us == "half") && (sc.extras || sc.split) {
 						// a pure usage report: no requestedUnit member, no trigger (the usage is still consumed from the reservation)
